@@ -190,7 +190,7 @@ func (l *c25Lib) walk(v octosql.Value) {
 		l.add("g"+bits, string(strconv.AppendFloat(nil, v.Float, 'g', -1, 64)))
 		l.add("f"+bits, strconv.FormatFloat(v.Float, 'f', -1, 64))
 	case octosql.TypeIDTime:
-		l.add(fmt.Sprintf("t%d:%d", v.Time.UnixNano(), locID(v.Time.Location())), v.Time.Format(time.RFC3339))
+		l.add(fmt.Sprintf("t%d:%d", v.Time.UnixNano(), locID(v.Time.Location())), v.Time.Format(time.RFC3339Nano))
 	case octosql.TypeIDDuration:
 		l.add("d"+strconv.FormatInt(int64(v.Duration), 10), v.Duration.String())
 	case octosql.TypeIDList:
